@@ -120,11 +120,16 @@ def validate(batch):
 
 
 def stats(batch):
-    st = dict(executions=0, setup_failed=0, api_calls=0, calls_not_ready=0, by_scenario={}, stuck=0, crashes=0, waits=0)
+    st = dict(executions=0, setup_failed=0, api_calls=0, calls_not_ready=0, by_scenario={}, stuck=0, crashes=0, waits=0, selftests=0,
+              selftests_ok=0)
     for line in open(batch):
         try:
             o = json.loads(line)
         except ValueError:
+            continue
+        if o["op"] == "selftest":
+            st["selftests"] += 1
+            st["selftests_ok"] += 1 if o.get("w", 0) >= 2 else 0
             continue
         if o["op"] == "X":
             st["executions"] += 1
